@@ -436,3 +436,74 @@ let classify_hist (_ : sx) (real : string) (_ : string) : string =
 let () =
   Hashtbl.replace table "hist" op_hist; Hashtbl.replace table "heap" op_heap;
   Hashtbl.replace classifiers "hist" classify_hist; Hashtbl.replace classifiers "heap" classify_hist
+
+(* ---------- S-dot ---------- *)
+let sort_uniq_str l = List.sort_uniq compare l
+(* dotbdd filter expr *)
+let op_dotbdd (args : sx) : string =
+  match args with
+  | L [f; e] ->
+      (match run run_fuel F (expr_of e) with
+       | None -> "(diverge)"
+       | Some b ->
+           let filt = tte_of f in
+           let nodes = sort_uniq_str (List.map bdd_str (dot_nodes filt b)) in
+           let edges = sort_uniq_str (List.map (fun ((s, lab), d) -> "(" ^ bdd_str s ^ " " ^ (if lab then "T" else "F") ^ " " ^ bdd_str d ^ ")") (dot_edges filt b)) in
+           let dup = if List.length nodes <> List.length (dot_nodes filt b) || List.length edges <> List.length (dot_edges filt b) then " dup" else "" in
+           "(ok (" ^ String.concat " " nodes ^ ") (" ^ String.concat " " edges ^ ") (" ^ String.trim dup ^ "))")
+  | _ -> raise (Bad "dotbdd")
+let show_elabel = function
+  | EL -> "L" | ER -> "R" | ENone -> "E" | EIdx j -> Printf.sprintf "(I %d)" (int_of_nat j)
+  | ELIdx j -> Printf.sprintf "(LI %d)" (int_of_nat j) | ERIdx j -> Printf.sprintf "(RI %d)" (int_of_nat j)
+  | EIf -> "If" | EThen -> "Then" | EElse -> "Else"
+(* dottree (text) : the distinct sub-terms and the labelled edges between them *)
+let op_dottree (args : sx) : string =
+  match args with
+  | L [txt] ->
+      let (uc, cps) = text_of txt in
+      (match tokenize uc [] cps with
+       | None -> "(err)"
+       | Some ts ->
+           (match parse ts with
+            | Ok (f, _) ->
+                let subs = subterms f in
+                let tbl = Hashtbl.create 16 in
+                let distinct = List.filter (fun g -> let s = form_str g in if Hashtbl.mem tbl s then false else (Hashtbl.replace tbl s (); true)) subs in
+                let nodes = sort_uniq_str (List.map form_str distinct) in
+                let edges = sort_uniq_str (List.concat_map (fun g ->
+                  (* every node reads back from its label and ordered edges (C14_rebuild) *)
+                  (match rebuild (label g) (out_edges g) with Some g' when form_str g' = form_str g -> () | _ -> raise (Bad "rebuild"));
+                  List.map (fun (l, c) -> "(" ^ form_str g ^ " " ^ show_elabel l ^ " " ^ form_str c ^ ")") (out_edges g)) distinct) in
+                "(ok (" ^ String.concat " " nodes ^ ") (" ^ String.concat " " edges ^ ") " ^ form_str f ^ ")"
+            | _ -> "(err)"))
+  | _ -> raise (Bad "dottree")
+let classify_dot (_ : sx) (real : string) (model : string) : string =
+  if real = "(panic)" then "panic"
+  else match (try Some (parse_sx real) with Bad _ -> None), (try Some (parse_sx model) with Bad _ -> None) with
+    | Some (L [A "ok"; n1; e1; x1]), Some (L [A "ok"; n2; e2; x2]) ->
+        let parts = ref [] in
+        if n1 <> n2 then parts := "nodes" :: !parts;
+        if e1 <> e2 then parts := "edges" :: !parts;
+        if x1 <> x2 then parts := "readback" :: !parts;
+        if !parts = [] then "holds" else String.concat " " (List.rev !parts)
+    | _ -> "graph"
+let () =
+  Hashtbl.replace table "dotbdd" op_dotbdd; Hashtbl.replace table "dottree" op_dottree;
+  Hashtbl.replace classifiers "dotbdd" classify_dot; Hashtbl.replace classifiers "dottree" classify_dot
+(* dotnamed filter (text) : the export of the evaluated formula, variables by id *)
+let op_dotnamed (args : sx) : string =
+  match args with
+  | L [f; txt] ->
+      let (uc, cps) = text_of txt in
+      (match parsed_formula uc [] cps with
+       | Done p ->
+           (match eval_f (eval_fuel_for cps) p.pf_form with
+            | Some b ->
+                let filt = tte_of f in
+                let nodes = sort_uniq_str (List.map bdd_str (dot_nodes filt b)) in
+                let edges = sort_uniq_str (List.map (fun ((s, lab), d) -> "(" ^ bdd_str s ^ " " ^ (if lab then "T" else "F") ^ " " ^ bdd_str d ^ ")") (dot_edges filt b)) in
+                "(ok (" ^ String.concat " " nodes ^ ") (" ^ String.concat " " edges ^ ") ())"
+            | None -> "(diverge)")
+       | _ -> "(err)")
+  | _ -> raise (Bad "dotnamed")
+let () = Hashtbl.replace table "dotnamed" op_dotnamed; Hashtbl.replace classifiers "dotnamed" classify_dot
